@@ -28,7 +28,7 @@ ASSUMPTIONS = [
     "fitted third-party estimator objects held by surrogate samplers are excluded from the canonical state",
     "Python scalars compare with == (True == 1, 3 == 3.0); list vs tuple is not a difference",
 ]
-REQUIRED_COUNTERS = {"calibrators_without_saving_folder": 6, "convergence_precision_zero": 4, "real_data_with_nonfinite_entries": 4, "many_parameter_cases": 8, "relative_folder_cases": 10, "restores_compared": 60, "tuple_roundtrips_json": 40, "tuple_roundtrips_sqlite": 40, "prepopulated_folder": 15,
+REQUIRED_COUNTERS = {"second_restores_of_the_same_folder": 60, "calibrators_without_saving_folder": 6, "convergence_precision_zero": 4, "real_data_with_nonfinite_entries": 4, "many_parameter_cases": 8, "relative_folder_cases": 10, "restores_compared": 60, "tuple_roundtrips_json": 40, "tuple_roundtrips_sqlite": 40, "prepopulated_folder": 15,
                      "no_batch_yet": 3, "after_set_samplers": 3, "convergence_stop": 3, "rl_scheduler": 3}
 SHARDS = {"quick": 16, "thorough": 16}
 SHARD_WATCHDOG = {"quick": 1500, "thorough": 10800}
@@ -76,6 +76,17 @@ def compare_restore(cal, folder, model, out, wit, label):
     d = S.diff(live, got)
     if d:
         out["violations"].append({"msg": f"{label}: restored state differs from the saved one: " + "; ".join(d[:4]), "witness": dict(wit, n_differences=len(d))})
+    else:
+        # reading a checkpoint does not use it up: a second restore (another process, a retry) gives the same state again
+        try:
+            with quiet():
+                again = S.snapshot(Calibrator.restore_from_checkpoint(str(folder), model))
+            c["second_restores_of_the_same_folder"] = c.get("second_restores_of_the_same_folder", 0) + 1
+            d2 = S.diff(live, again)
+            if d2:
+                out["violations"].append({"msg": f"{label}: a second restore from the same folder differs from the first: " + "; ".join(d2[:3]), "witness": wit})
+        except Exception as e:  # noqa: BLE001
+            out["violations"].append({"msg": f"{label}: the folder could be restored once but not twice: {type(e).__name__}: {str(e)[:160]}", "witness": wit})
     return rest
 
 
@@ -92,6 +103,11 @@ def run_cal(desc, ctx, out):
                         n_samplers=int(rng.integers(1, 5)), max_bs=3, params=int(rng.integers(11, 14)) if many else None)
     if many:
         c["many_parameter_cases"] = c.get("many_parameter_cases", 0) + 1
+    if i % 10 == 6 and len(cfg["lineup"]) >= 3 and not rl:
+        # one sampler object at two positions of the line-up: the restored line-up has ONE object there too
+        cfg["lineup"][2] = dict(cfg["lineup"][0])
+        cfg["alias"] = [[0, 2]]
+        c["lineups_with_one_object_twice"] = c.get("lineups_with_one_object_twice", 0) + 1
     if i % 4 == 1:
         cfg["conv"] = int(rng.choice([0, 0, 3, 9]))   # includes the legal value 0 ("stop when the loss rounds to 0")
         c["convergence_precision_set"] = c.get("convergence_precision_set", 0) + 1
